@@ -369,15 +369,37 @@ def title_sets(ctx, sut):
         titles = [rng.choice(pool) for _ in range(count)]
         if rng.random() < 0.4:
             titles.append(titles[0])  # repeated title, different body
-        doc = {
-            "type": "object", "title": "Root",
-            "properties": {
-                f"p{k}": {"type": "object", "title": title,
-                          "properties": {f"q{k}": {"type": rng.choice(["string", "integer"]),
-                                                    "maxLength": k}}}
-                for k, title in enumerate(titles)
-            },
-        }
+        doc = {"type": "object", "title": "Root", "properties": {}}
+        for k, title in enumerate(titles):
+            obj = {"type": "object", "title": title,
+                   "properties": {f"q{k}": {"type": rng.choice(["string", "integer"]), "maxLength": k}}}
+            # equally titled classes may sit in ANY schema position of the document
+            where = rng.choice(["property", "property", "tuple_item", "items", "additionalProperties", "anyOf",
+                                "patternProperties", "definitions", "dependencies", "contains", "not",
+                                "additionalItems"])
+            ctx.count("titles.position." + where)
+            if where == "property":
+                doc["properties"][f"p{k}"] = obj
+            elif where == "tuple_item":
+                doc["properties"][f"p{k}"] = {"type": "array", "items": [{"type": "string"}, obj]}
+            elif where == "items":
+                doc["properties"][f"p{k}"] = {"type": "array", "items": obj}
+            elif where == "additionalItems":
+                doc["properties"][f"p{k}"] = {"items": [{"type": "string"}], "additionalItems": obj}
+            elif where == "additionalProperties":
+                doc["properties"][f"p{k}"] = {"additionalProperties": obj}
+            elif where == "anyOf":
+                doc["properties"][f"p{k}"] = {rng.choice(["anyOf", "oneOf", "allOf"]): [obj, {"type": "null"}]}
+            elif where == "patternProperties":
+                doc["properties"][f"p{k}"] = {"patternProperties": {"^x": obj}}
+            elif where == "definitions":
+                doc.setdefault("definitions", {})[f"d{k}"] = obj
+            elif where == "dependencies":
+                doc["properties"][f"p{k}"] = {"dependencies": {"a": obj}}
+            elif where == "contains":
+                doc["properties"][f"p{k}"] = {"contains": obj}
+            else:
+                doc["properties"][f"p{k}"] = {"not": obj}
         ctx.evaluation()
         ctx.count("titles.sets")
         ctx.nontrivial("t:" + "\x1f".join(titles))
